@@ -326,7 +326,7 @@ func emitSites(p *pkg, server *pkg, out string) {
 			strings.HasPrefix(name, "is") || strings.HasPrefix(name, "verify") || strings.HasPrefix(name, "calculate") || strings.HasSuffix(name, "Inclusion") ||
 			name == "Write" || name == "writeBatch" || name == "writeIATBatch" || name == "writeADVBatch" || name == "Equal" || name == "IsADV" ||
 			name == "CreditOrDebit" || name == "addendaCount" || name == "GetValidation" || name == "Flush" || name == "Error" || name == "validate"
-		if !readOnly {
+		if !readOnly || strings.HasPrefix(name, "Set") {
 			continue
 		}
 		fd := p.funcs[key]
@@ -354,6 +354,16 @@ func emitSites(p *pkg, server *pkg, out string) {
 				s := p.src(n.X)
 				if strings.HasPrefix(s, recv+".") {
 					ws = append(ws, normRecv(s, recv))
+				}
+			case *ast.CallExpr:
+				// mutator calls on (something reachable from) the receiver
+				if se, ok := n.Fun.(*ast.SelectorExpr); ok {
+					nm := se.Sel.Name
+					base := p.src(se.X)
+					if !strings.HasSuffix(nm, "Field") && (strings.HasPrefix(nm, "Set") || strings.HasPrefix(nm, "Add") || strings.HasPrefix(nm, "Remove") || nm == "Create" || nm == "build") &&
+						(base == recv || strings.HasPrefix(base, recv+".")) {
+						ws = append(ws, "call:"+normRecv(base, recv)+"."+nm)
+					}
 				}
 			}
 			return true
